@@ -7,6 +7,7 @@ mod timing;
 mod hitobj;
 mod events;
 mod curve;
+mod reader;
 
 use util::*;
 
@@ -27,6 +28,8 @@ fn main() {
         ("events", "record") => events::record(&args, &mut s),
         ("curve", "replay") => curve::replay(&args, &mut s),
         ("cache", "replay") => curve::cache_replay(&args, &mut s),
+        ("reader", "replay") => reader::replay(&args, &mut s),
+        ("reader", "relations") => reader::relations(&args, &mut s),
         (m, o) => {
             eprintln!("unknown module/mode {m} {o}");
             std::process::exit(2);
